@@ -22,6 +22,9 @@ func init() {
 		},
 		Run: runC28,
 		Controls: []Control{
+			{Name: "ignored-peers-survive-the-session", File: "protocols/bgp/server/bmp_router.go", Old: "\tr.ignoredPeers = make(map[bnet.IP]struct{})\n}", New: "}", Expect: "session-state-ends-with-session"},
+			{Name: "decode-options-cached-in-the-neighbor", File: "protocols/bgp/server/bmp_router.go", Old: "\topt := s.fsm.decodeOptions()\n\topt.Use32BitASN = !msg.PerPeerHeader.GetAFlag()\n", New: "\topt := n.opt\n\topt.Use32BitASN = !msg.PerPeerHeader.GetAFlag()\n", Expect: "per-message-decode-options"},
+			{Name: "width-only-changed-for-legacy-messages", File: "protocols/bgp/server/bmp_router.go", Old: "\topt.Use32BitASN = !msg.PerPeerHeader.GetAFlag()\n", New: "\tif msg.PerPeerHeader.GetAFlag() {\n\t\topt.Use32BitASN = false\n\t}\n", Expect: "per-message-decode-options"},
 			{Name: "cleanup-drops-tables-without-telling-observers", File: "routingtable/vrf/vrf_registry.go", Old: "\t\tfor _, rib := range r.vrfs[id].ribs {\n\t\t\trib.Dispose()\n\t\t}\n", New: "\t\tr.vrfs[id].Dispose()\n", Expect: "session-end-disposes-tables"},
 			{Name: "bmp-session-registers-local-asn", File: "protocols/bgp/server/fsm_address_family.go", Old: "func (f *fsmAddressFamily) bmpInit() {\n", New: "func (f *fsmAddressFamily) bmpInit() {\n\tf.fsm.peer.vrf.AddContributingASN(f.fsm.peer.localASN)\n", Expect: "tables-hold-what-was-announced"},
 			{Name: "refactor-dispose-all-over-copy", Silent: true, File: "protocols/bgp/server/bmp_neighbor_manager.go", Old: "\tfor len(nm.neighbors) > 0 {\n\t\tnm._neighborDown(nm.neighbors[0].vrfID, nm.neighbors[0].peerAddress)\n\t}\n", New: "\tall := make([]*neighbor, len(nm.neighbors))\n\tcopy(all, nm.neighbors)\n\tfor _, n := range all {\n\t\tnm._neighborDown(n.vrfID, n.peerAddress)\n\t}\n"},
@@ -34,6 +37,8 @@ func init() {
 }
 
 func runC28(c *core.Ctx) {
+	sessionStateEndsWithSession(c)
+	perMessageOptionsAreFresh(c)
 	p := c.P
 	disp := c.MustFunc(srv + ".(*fsmAddressFamily).bmpDispose")
 	down := c.MustFunc(srv + ".(*neighborManager)._neighborDown")
